@@ -29,6 +29,13 @@ def xonsh_tests() -> tuple[str, ...]:
         return tuple(json.load(f)["xsh"])
 
 
+@lru_cache(maxsize=None)
+def error_snippets() -> tuple[str, ...]:
+    """Erroneous inputs of the repository's own error tests (frozen by tools/build_error_corpus.py)."""
+    with open(os.path.join(VERIF, "corpus", "errors.json"), encoding="utf-8") as f:
+        return tuple(json.load(f)["errors"])
+
+
 # Complete top-level statements, one per Python statement kind and per xonsh statement form.
 # Every entry has a non-empty body and ends with a newline (C14's quantifier).
 PY_POOL = [
